@@ -24,7 +24,36 @@ func (tr *Tr) libCall(key string, f *ssa.Function, args []Value, resT types.Type
 	switch key {
 	case "fmt.Sprintf", "fmt.Sprint", "fmt.Sprintln", "strings.Repeat", "strings.Join", "strings.Builder.String", "bytes.Buffer.String",
 		"strconv.FormatUint", "strconv.Itoa", "strconv.Quote":
-		return Sc{T: tr.freshOpaque("str")}, true
+		res := tr.freshOpaque("str")
+		if key == "fmt.Sprintf" && len(args) > 0 {
+			// the output contains every literal character of a constant format string: it is non-empty if there is one
+			if fsc, ok := args[0].(Sc); ok && isLiteral(fsc.T) {
+				var id int
+				fmt.Sscan(fsc.T, &id)
+				for str, sid := range tr.g.strIDs {
+					if sid == id {
+						lit := 0
+						for i := 0; i < len(str); i++ {
+							if str[i] == '%' {
+								i++
+								for i < len(str) && strings.IndexByte("+-# 0123456789.[]*", str[i]) >= 0 {
+									i++
+								}
+								if i < len(str) && str[i] == '%' {
+									lit++
+								}
+								continue
+							}
+							lit++
+						}
+						if lit > 0 {
+							tr.sc.fact(sLe("1", tr.g.strlen(tr, res)))
+						}
+					}
+				}
+			}
+		}
+		return Sc{T: res}, true
 	case "fmt.Fprintf", "fmt.Fprint", "strings.Builder.WriteString", "bytes.Buffer.WriteString":
 		return Tup{E: []Value{Sc{T: tr.freshOpaque("n")}, If{"0", "0"}}}, true
 	case "strings.Builder.WriteByte":
